@@ -13,6 +13,7 @@ struct OpSpec {
   int T = 1;
   int cmode = 0, hmode = 0;
   uint8_t key[16] = {0};
+  int keyslot = 0;          // which of the harness's two long-lived key buffers the operation's key is handed over in
   Bytes seedstr;            // encrypt only; no NUL bytes, <= 255
   SimFile *fin = nullptr;   // nullptr => runcrypt gets fin == NULL
   SimFile *fout = nullptr;  // nullptr => out == NULL
